@@ -88,6 +88,22 @@ Theorem C03_custom_filter_exact :
 Proof. exact find_preds_custom_exact. Qed.
 Print Assumptions C03_custom_filter_exact.
 
+(* Depth <= 0: the SET of roots does not depend on how the source happens to serve its
+   predecessors (order, multiplicity, which optional descriptor fields are present) -- fresh or
+   reopened store, any Go map order. *)
+Theorem C03_roots_order_independent :
+  forall (s1 s2 : source) (fs : list filter) (rank1 rank2 : nat -> nat) (limit : Z) (node : desc)
+         (fuel1 fuel2 : nat) (roots1 roots2 : list desc),
+    (forall x y, In y (map d_id (s_preds s1 x)) <-> In y (map d_id (s_preds s2 x))) ->
+    (forall f y, keep_spec s1 f y = keep_spec s2 f y) ->
+    all_served_ok s1 -> all_served_ok s2 ->
+    acyclic_source s1 rank1 -> acyclic_source s2 rank2 -> (limit <= 0)%Z ->
+    find_roots fuel1 s1 fs limit node = Some roots1 ->
+    find_roots fuel2 s2 fs limit node = Some roots2 ->
+    forall a, In a (map d_id roots1) <-> In a (map d_id roots2).
+Proof. exact roots_unlimited_order_independent. Qed.
+Print Assumptions C03_roots_order_independent.
+
 (* The call sequence (an intermediate observable compared with the implementation on every
    case): the logging loop returns the same roots, and opts.FindPredecessors is called at most
    once per node. *)
